@@ -255,15 +255,46 @@ def parseFiles (s : String) : Option (List (Bytes × Bytes)) :=
       | _, _ => none
     | _ => none
 
+/-- characters of a path alias name (`validPathNameCharacters` of `getIncludeFilePath`). -/
+def isPathNameChar (b : UInt8) : Bool := isAlnum b || b == 45 || b == 95
+
+/-- replace every occurrence of `pat` (non-empty) by `rep`, left to right, not rescanning the
+replacement (`Opm::replaceAll`). -/
+def replaceAllB (pat rep : Bytes) : Nat → Bytes → Bytes
+  | 0, l => l
+  | _, [] => []
+  | fuel + 1, c :: r =>
+    if pat.isPrefixOf (c :: r) then rep ++ replaceAllB pat rep fuel ((c :: r).drop pat.length)
+    else c :: replaceAllB pat rep fuel r
+
+/-- stand-in for `ParserState::getIncludeFilePath` (driver only): `$NAME` replaced through the
+alias list of PATHS (unknown alias: `pathMap.at` throws), outer blanks trimmed. -/
+def resolvePath (al : List (Bytes × Bytes)) (path : Bytes) : Option Bytes :=
+  let p1 : Option Bytes :=
+    match path.dropWhile (· != 36) with
+    | [] => some path
+    | _ :: after =>
+      let nm := after.takeWhile isPathNameChar
+      match al.find? (fun q => q.1 == nm) with
+      | none => none
+      | some q => some (replaceAllB (36 :: nm) q.2 (path.length + 1) path)
+  match p1 with
+  | none => none
+  | some p => some ((p.dropWhile (fun b => b == 32 || (9 ≤ b.toNat && b.toNat ≤ 13))).reverse.dropWhile
+      (fun b => b == 32 || (9 ≤ b.toNat && b.toNat ≤ 13))).reverse
+
 /-- deck.deck <fuel> <kwdefs ~> <recognised names> <files> <text> -/
 def handleDeck (args : List String) : String :=
   match args with
   | [fuel, defs, names, files, text] =>
     match (defs.splitOn "~").mapM parseKwDef, parseNames names, parseFiles files, ofHex text with
     | some tbl, some recNames, some fl, some txt =>
-      let lookupFile := fun (p : Bytes) => match fl.find? (fun q => q.1 == p) with
-        | some q => some q.2
+      let lookupFile := fun (al : List (Bytes × Bytes)) (p0 : Bytes) =>
+        match resolvePath al p0 with
         | none => none
+        | some p => match fl.find? (fun q => q.1 == p) with
+          | some q => some q.2
+          | none => none
       match parseDeckText conv tbl (fun n => recNames.contains n) lookupFile fuel.toNat! txt with
       | none => "err"
       | some deck =>
